@@ -510,6 +510,13 @@ def _mutable_module_globals():
             if isinstance(val, (dict, list, set, bytearray, collections.OrderedDict, collections.defaultdict,
                                 collections.deque)):
                 out.append((mod, name))
+            elif isinstance(val, type) and (getattr(val, "__module__", "") or "").startswith("cooler"):
+                # class-level containers (per-class caches and registries) are process state too
+                for cname, cval in sorted(vars(val).items()):
+                    if cname.startswith("__"):
+                        continue
+                    if isinstance(cval, (dict, list, set, bytearray, collections.deque)) and (val, cname) not in out:
+                        out.append((val, cname))
     return out
 
 
